@@ -5,3 +5,4 @@ open Fzf.Props.C10
 #print axioms C10_partition_regex
 #print axioms C10_offsets
 #print axioms C10_offsets_awk
+#print axioms C10_transform_selects
